@@ -121,13 +121,23 @@ pub fn coeffs(delta: i128, n_small: i128, level: Level) -> Vec<i128> {
         }
     }
     // digits: generic values with no special structure
-    let pats: [&str; 4] = [
+    // fixed digit strings without special structure (digits of pi, e, sqrt 2, 1/7, 1/17, 2/3 among them)
+    let pats: [&str; 10] = [
         "123456789012345678901234567890123456789",
         "987654321098765432109876543210987654321",
         "999999999999999999999999999999999999999",
         "111111111111111111111111111111111111111",
+        "314159265358979323846264338327950288419",
+        "271828182845904523536028747135266249775",
+        "141421356237309504880168872420969807856",
+        "142857142857142857142857142857142857142",
+        "588235294117647058823529411764705882352",
+        "666666666666666666666666666666666666666",
     ];
-    for p in pats {
+    for (pi, p) in pats.iter().enumerate() {
+        if level == Level::Quick && pi >= 4 {
+            continue;
+        }
         let mut len = 1;
         while len <= 39 {
             if let Ok(v) = p[..len].parse::<i128>() {
